@@ -237,6 +237,27 @@ def catalogue():
         "asm.find_node_by_name": lambda e, V: e["asm"].find_node_by_name(node_name=V["name"], label="NetworkNode"),
         "adm.rewrite_delegations": lambda e, V: e["adm"].rewrite_delegations(real_adm_id=V["g2"]),
     }
+    # identifier sweeps: the same operations for every class label / relation / special property name
+    classes = ("NetworkNode", "Component", "NetworkService", "ConnectionPoint", "Link", "CompositeNode")
+    pnames = ("GraphID", "NodeID", "Name", "Class", "Type", "Labels", "StitchNode", "CapacityDelegations")
+    for pn in pnames:
+        ops["update_nodes_property[%s]" % pn] = lambda e, V, pn=pn: e["g"].update_nodes_property(prop_name=pn, prop_val=V["v"])
+        ops["update_node_property[%s]" % pn] = lambda e, V, pn=pn: e["g"].update_node_property(node_id=V["n"], prop_name=pn, prop_val=V["v"])
+        ops["unset_node_property[%s]" % pn] = lambda e, V, pn=pn: e["g"].unset_node_property(node_id=V["n"], prop_name=pn)
+        ops["update_link_property[%s]" % pn] = lambda e, V, pn=pn: e["g"].update_link_property(node_a=V["n"], node_b=V["n2"], kind="connects", prop_name=pn, prop_val=V["v"])
+        ops["update_node_properties[%s]" % pn] = lambda e, V, pn=pn: e["g"].update_node_properties(node_id=V["n"], props={pn: V["v"]})
+    for c in classes:
+        ops["get_all_nodes_by_class[%s]" % c] = lambda e, V, c=c: e["g"].get_all_nodes_by_class(label=c)
+        ops["node_exists[%s]" % c] = lambda e, V, c=c: e["g"].node_exists(node_id=V["n"], label=c)
+        ops["check_node_unique[%s]" % c] = lambda e, V, c=c: e["g"].check_node_unique(label=c, name=V["name"])
+        ops["add_node[%s]" % c] = lambda e, V, c=c: e["g"].add_node(node_id=V["n"], label=c, props={"Name": V["name"], "Type": V["t"]})
+        ops["get_graph_diff[%s]" % c] = lambda e, V, c=c: e["g"].get_graph_diff(other_graph=e["other"], label=c)
+        ops["get_graph_property_diff[%s]" % c] = lambda e, V, c=c: e["g"].get_graph_property_diff(other_graph=e["other"], label=c)
+        for r in ("has", "connects"):
+            ops["get_first_neighbor[%s,%s]" % (r, c)] = lambda e, V, c=c, r=r: e["g"].get_first_neighbor(node_id=V["n"], rel=r, node_label=c)
+    for r in ("has", "connects"):
+        ops["add_link[%s]" % r] = lambda e, V, r=r: e["g"].add_link(node_a=V["n"], rel=r, node_b=V["n2"], props={"Name": V["name"]})
+        ops["get_nodes_on_shortest_path[%s]" % r] = lambda e, V, r=r: e["g"].get_nodes_on_shortest_path(node_a=V["n"], node_z=V["n2"], rel=r)
     return ops
 
 
